@@ -152,3 +152,71 @@ def _payload(facts, body, x, depth, somes):
         else:
             out.append(Alt(('unwrap', a.value), [(nosite(a.value), {somes[0]})] + a.variants, a.atoms))
     return out
+
+
+def ret_alts_paths(facts, body):
+    """alternatives of the return value, one per (defining block, path to it) with the guards of the whole path -- a DNF of the
+    conditions under which each value is returned; None when the path enumeration is too large"""
+    from .sym import ret_values, path_guards, guard_variants
+    out = []
+    for v, bb in ret_values(body):
+        paths = path_guards(body, bb)
+        if paths is None:
+            return None
+        val = expand(facts, body, nosite(v))
+        for gs in paths:
+            vf, at = [], []
+            for g in gs:
+                r = guard_variants(body, g)
+                if r is not None:
+                    vf.append((nosite(r[0]), tuple(sorted(r[1]))))
+                    continue
+                t, pol = g.atom()
+                if pol is not None:
+                    at.append((nosite(t), pol))
+            out.append(Alt(val, vf, at))
+    return out
+
+
+def eval_conds(alt, assign):
+    """truth of the guard conjunction of `alt` under `assign` = [(tree predicate, variant name)]: True / False / None (unknown atom).
+    Understood atoms: `x is V` facts, Eq/Ne(x, unit variant), PartialEq::eq/ne(x, unit variant), is-matches on x."""
+    def var_of(t):
+        c = core(t)
+        for pred, val in assign:
+            if pred(c):
+                return val
+        return None
+
+    def unit(t):
+        c = core(t)
+        if c[0] == 'agg' and c[1] == 'adt' and not c[3]:
+            return c[2].rsplit('::', 1)[-1]
+        if c[0] == 'const' and '::' in c[1]:
+            return c[1].rsplit('::', 1)[-1].strip('{} ')
+        return None
+    res = True
+    for t, names in alt.variants:
+        v = var_of(t)
+        if v is None:
+            return None
+        if v not in names:
+            return False
+    for t, pol in alt.atoms:
+        c = peel(t)
+        val = None
+        if c[0] == 'bin' and c[1] in ('Eq', 'Ne'):
+            for a, b in ((c[2], c[3]), (c[3], c[2])):
+                va, ub = var_of(a), unit(b)
+                if va is not None and ub is not None:
+                    val = (va == ub) if c[1] == 'Eq' else (va != ub)
+        elif c[0] == 'call' and len(c[2]) == 2 and last_seg(c[1]) in ('eq', 'ne'):
+            for a, b in ((c[2][0], c[2][1]), (c[2][1], c[2][0])):
+                va, ub = var_of(a), unit(b)
+                if va is not None and ub is not None:
+                    val = (va == ub) if last_seg(c[1]) == 'eq' else (va != ub)
+        if val is None:
+            return None
+        if val != pol:
+            return False
+    return res
